@@ -883,7 +883,8 @@ impl<W: Word, B: AsRef<[W]> + AsMut<[W]>> BitFieldSliceMut<W> for BitFieldVec<W,
                 bit_width: self.bit_width,
                 chunk_size,
                 iter: self.bits.as_mut()[..(len * bit_width).div_ceil(W::BITS)]
-                    .chunks_mut((chunk_size * bit_width).div_ceil(W::BITS)),
+                    // (when there is a single chunk chunk_size is arbitrary)
+                    .chunks_mut(chunk_size.saturating_mul(bit_width).div_ceil(W::BITS)),
             })
         } else {
             Err(())
